@@ -1,6 +1,7 @@
 """C10 - dtml-in visits each element once, in order, with correct sequence
 variables.  Oracle: the per-element variable model (vf.model.SeqVars),
 written from the dtml-in documentation."""
+import collections
 import re
 
 from vf import model
@@ -39,6 +40,20 @@ class El:
 
     def __repr__(self):
         return 'E%d' % self.idn
+
+
+class StrEl(str):
+    """A text element that also has attributes (a str subclass)."""
+
+    def __new__(cls, s, x):
+        self = str.__new__(cls, s)
+        self.x = x
+        return self
+
+
+class Pt(collections.namedtuple('Pt', 'x idn')):
+    """A record with two fields: a tuple subclass, not a (key, value)
+    pair."""
 
 
 class Lazy:
@@ -188,7 +203,8 @@ def elements(case):
         elif elk == 'mixed':
             # heterogeneous: object / string / number / pair by position
             out.append([El(i, x, k), 'm%d' % i, k,
-                        ('mk%d' % i, El(i, x, k))][(x + i) % 4])
+                        ('mk%d' % i, El(i, x, k)), StrEl('se%d' % i, x),
+                        Pt(x, i)][(x + 2 * i) % 6])
         else:
             out.append(k)
     return out
@@ -261,8 +277,8 @@ def expected(case):
                 e['x'] if isinstance(e, dict) else e.x)
         if elk == 'mixed':
             e = sv.element(i)
-            row['x'] = shown(e.x) if isinstance(e, El) and not \
-                opts.get('no_push_item') else 'OUTERX'
+            row['x'] = shown(e.x) if isinstance(e, (El, StrEl, Pt)) and \
+                not opts.get('no_push_item') else 'OUTERX'
         p = opts.get('prefix')
         if p:
             for n in VALUED:
